@@ -1159,6 +1159,8 @@ impl<D: Distance> Writer<D> {
             children_right.clear();
 
             let normal = D::create_split(&children, rng)?;
+            #[cfg(feature = "verif-hooks")]
+            crate::verif::emit(crate::verif::Event::Normal(normal.as_bytes().to_vec()));
             for item_id in item_indices.iter() {
                 let node = reader.leafs.get(item_id)?.unwrap();
                 match D::side(&normal, &node, rng) {
